@@ -6,58 +6,6 @@ Import ListNotations.
 Local Open Scope string_scope.
 Local Open Scope Z_scope.
 
-(* saltpack.armorEncoderStream_Write, armor.go *)
-Definition f_saltpack_armorEncoderStream_Write : gfunc := mkFunc "saltpack.armorEncoderStream_Write" ["s"; "b"] [("n", "int"); ("err", "error")]
-     [SAssign ["n"; "err"] [(ECall "WriteCloser.Write" [(ESel (EVar "s") "encoder"); (EVar "b")])];
-      SIf [] (EBin ONe "bool" (EVar "err") ENil)
-      [SReturn [(EVar "n"); (EVar "err")]]
-      [];
-      SIf [SAssign ["err"] [(ECall "armorEncoderStream.spaceAndOutputBuffer" [(EVar "s")])]] (EBin ONe "bool" (EVar "err") ENil)
-      [SReturn [(EVar "n"); (EVar "err")]]
-      [];
-      SReturn [(EVar "n"); ENil]].
-
-(* saltpack.armorEncoderStream_spaceAndOutputBuffer, armor.go *)
-Definition f_saltpack_armorEncoderStream_spaceAndOutputBuffer : gfunc := mkFunc "saltpack.armorEncoderStream_spaceAndOutputBuffer" ["s"] []
-     [SFor (EBin OGt "bool" (ECall "Buffer.Len" [(ESel (EVar "s") "buf")]) (ESel (ESel (EVar "s") "params") "BytesPerWord"))
-      [SAssign ["buf"] [(ECall "Buffer.Next" [(ESel (EVar "s") "buf"); (ESel (ESel (EVar "s") "params") "BytesPerWord")])];
-      SOpAssignL (LField (LVar "s") "nWords") OAdd "int" (EInt 1);
-      SAssign ["sep"] [(EInt (32))];
-      SIf [] (EBin OEq "bool" (EBin OMod "int" (ESel (EVar "s") "nWords") (ESel (ESel (EVar "s") "params") "WordsPerLine")) (EInt (0)))
-      [SAssign ["sep"] [(EInt (10))]]
-      [];
-      SIf [SAssign ["_"; "err"] [(ECall "Writer.Write" [(ESel (EVar "s") "encoded"); (EVar "buf")])]] (EBin ONe "bool" (EVar "err") ENil)
-      [SReturn [(EVar "err")]]
-      [];
-      SIf [SAssign ["_"; "err"] [(ECall "Writer.Write" [(ESel (EVar "s") "encoded"); (ELit "[]byte" [("0", (EVar "sep"))])])]] (EBin ONe "bool" (EVar "err") ENil)
-      [SReturn [(EVar "err")]]
-      []];
-      SReturn [ENil]].
-
-(* saltpack.armorEncoderStream_Close, armor.go *)
-Definition f_saltpack_armorEncoderStream_Close : gfunc := mkFunc "saltpack.armorEncoderStream_Close" ["s"] [("err", "error")]
-     [SIf [SAssign ["err"] [(ECall "WriteCloser.Close" [(ESel (EVar "s") "encoder")])]] (EBin ONe "bool" (EVar "err") ENil)
-      [SReturn [(EVar "err")]]
-      [];
-      SIf [SAssign ["err"] [(ECall "armorEncoderStream.spaceAndOutputBuffer" [(EVar "s")])]] (EBin ONe "bool" (EVar "err") ENil)
-      [SReturn [(EVar "err")]]
-      [];
-      SAssign ["lst"] [(ECall "Buffer.Bytes" [(ESel (EVar "s") "buf")])];
-      SIf [SAssign ["_"; "err"] [(ECall "Writer.Write" [(ESel (EVar "s") "encoded"); (EVar "lst")])]] (EBin ONe "bool" (EVar "err") ENil)
-      [SReturn [(EVar "err")]]
-      [];
-      SOpAssignL (LField (LVar "s") "nWords") OAdd "int" (EInt 1);
-      SAssign ["pad"] [(EStr "")];
-      SIf [] (EBin OEq "bool" (ELen (EVar "lst")) (ESel (ESel (EVar "s") "params") "BytesPerWord"))
-      [SIf [] (EBin OEq "bool" (EBin OMod "int" (ESel (EVar "s") "nWords") (ESel (ESel (EVar "s") "params") "WordsPerLine")) (EInt (0)))
-      [SAssign ["pad"] [(EBytesLit [10])]]
-      [SAssign ["pad"] [(EStr " ")]]]
-      [];
-      SIf [SAssign ["_"; "err"] [(ECall "fmt.Fprintf" [(ESel (EVar "s") "encoded"); (EBytesLit [37; 115; 37; 99; 32; 37; 115; 37; 99; 10]); (EVar "pad"); (ESel (ESel (EVar "s") "params") "Punctuation"); (ESel (EVar "s") "footer"); (ESel (ESel (EVar "s") "params") "Punctuation")])]] (EBin ONe "bool" (EVar "err") ENil)
-      [SReturn [(EVar "err")]]
-      [];
-      SReturn [ENil]].
-
 (* saltpack.chunkReader_Read, chunk_reader.go *)
 Definition f_saltpack_chunkReader_Read : gfunc := mkFunc "saltpack.chunkReader_Read" ["r"; "p"] [("n", "int"); ("err", "error")]
      [SFor (EBool true)
@@ -144,53 +92,4 @@ Definition f_saltpack_punctuatedReader_ReadUntilPunctuation : gfunc := mkFunc "s
       SIf [] (EBin OEq "bool" (EVar "n") (EInt (0)))
       [SReturn [ENil; (EErrVar "io.ErrUnexpectedEOF")]]
       []]].
-
-(* basex.encoder_Write, stream.go *)
-Definition f_basex_encoder_Write : gfunc := mkFunc "basex.encoder_Write" ["e"; "p"] [("n", "int"); ("err", "error")]
-     [SIf [] (EBin ONe "bool" (ESel (EVar "e") "err") ENil)
-      [SReturn [(EInt (0)); (ESel (EVar "e") "err")]]
-      [];
-      SAssign ["ibl"] [(ESel (ESel (EVar "e") "enc") "base256BlockLen")];
-      SAssign ["obl"] [(ESel (ESel (EVar "e") "enc") "baseXBlockLen")];
-      SIf [] (EBin OGt "bool" (ESel (EVar "e") "nbuf") (EInt (0)))
-      [SVar "i" "int";
-      SIf [SAssign ["i"] [(EInt (0))]] (EBool true) [SFor (EBin OAnd "bool" (EBin OLt "bool" (EVar "i") (ELen (EVar "p"))) (EBin OLt "bool" (ESel (EVar "e") "nbuf") (EVar "ibl")))
-      ([SAssignL [(LIndex (LField (LVar "e") "buf") (ESel (EVar "e") "nbuf"))] [(EIdx (EVar "p") (EVar "i"))];
-      SOpAssignL (LField (LVar "e") "nbuf") OAdd "int" (EInt 1)] ++ [SOpAssign "i" OAdd "int" (EInt 1)])] [];
-      SOpAssign "n" OAdd "int" (EVar "i");
-      SAssign ["p"] [(ESlice (EVar "p") (Some (EVar "i")) None)];
-      SIf [] (EBin OLt "bool" (ESel (EVar "e") "nbuf") (EVar "ibl"))
-      [SReturn [(EVar "n"); (EVar "err")]]
-      [];
-      SExpr (ECall "Encoding.Encode" [(ESel (EVar "e") "enc"); (ESel (EVar "e") "out"); (ESel (EVar "e") "buf")]);
-      SIf [SAssignL [(LVar "_"); (LField (LVar "e") "err")] [(ECall "Writer.Write" [(ESel (EVar "e") "w"); (ESlice (ESel (EVar "e") "out") None (Some (EVar "obl")))])]] (EBin ONe "bool" (ESel (EVar "e") "err") ENil)
-      [SReturn [(EVar "n"); (ESel (EVar "e") "err")]]
-      [];
-      SAssignL [(LField (LVar "e") "nbuf")] [(EInt (0))]]
-      [];
-      SFor (EBin OGe "bool" (ELen (EVar "p")) (EVar "ibl"))
-      [SAssign ["nn"] [(EBin OMul "int" (EBin ODiv "int" (ELen (ESel (EVar "e") "out")) (EVar "obl")) (EVar "ibl"))];
-      SIf [] (EBin OGt "bool" (EVar "nn") (ELen (EVar "p")))
-      [SAssign ["nn"] [(ELen (EVar "p"))];
-      SOpAssign "nn" OSub "int" (EBin OMod "int" (EVar "nn") (EVar "ibl"))]
-      [];
-      SExpr (ECall "Encoding.Encode" [(ESel (EVar "e") "enc"); (ESel (EVar "e") "out"); (ESlice (EVar "p") None (Some (EVar "nn")))]);
-      SIf [SAssignL [(LVar "_"); (LField (LVar "e") "err")] [(ECall "Writer.Write" [(ESel (EVar "e") "w"); (ESlice (ESel (EVar "e") "out") (Some (EInt (0))) (Some (EBin OMul "int" (EBin ODiv "int" (EVar "nn") (EVar "ibl")) (EVar "obl"))))])]] (EBin ONe "bool" (ESel (EVar "e") "err") ENil)
-      [SReturn [(EVar "n"); (ESel (EVar "e") "err")]]
-      [];
-      SOpAssign "n" OAdd "int" (EVar "nn");
-      SAssign ["p"] [(ESlice (EVar "p") (Some (EVar "nn")) None)]];
-      SExpr (ECall "copy" [(ESlice (ESel (EVar "e") "buf") (Some (EInt (0))) (Some (ELen (EVar "p")))); (EVar "p")]);
-      SAssignL [(LField (LVar "e") "nbuf")] [(ELen (EVar "p"))];
-      SOpAssign "n" OAdd "int" (ELen (EVar "p"));
-      SReturn [(EVar "n"); (EVar "err")]].
-
-(* basex.encoder_Close, stream.go *)
-Definition f_basex_encoder_Close : gfunc := mkFunc "basex.encoder_Close" ["e"] []
-     [SIf [] (EBin OAnd "bool" (EBin OEq "bool" (ESel (EVar "e") "err") ENil) (EBin OGt "bool" (ESel (EVar "e") "nbuf") (EInt (0))))
-      [SExpr (ECall "Encoding.Encode" [(ESel (EVar "e") "enc"); (ESel (EVar "e") "out"); (ESlice (ESel (EVar "e") "buf") None (Some (ESel (EVar "e") "nbuf")))]);
-      SAssignL [(LVar "_"); (LField (LVar "e") "err")] [(ECall "Writer.Write" [(ESel (EVar "e") "w"); (ESlice (ESel (EVar "e") "out") None (Some (ECall "Encoding.EncodedLen" [(ESel (EVar "e") "enc"); (ESel (EVar "e") "nbuf")])))])];
-      SAssignL [(LField (LVar "e") "nbuf")] [(EInt (0))]]
-      [];
-      SReturn [(ESel (EVar "e") "err")]].
 
